@@ -9,7 +9,8 @@
    transceivers and transports.  What the model does not contain (asyncio itself, threads, the
    native libraries) is only observed on the real objects by the harness: the property is PARTIAL. *)
 From Coq Require Import ZArith List Bool Arith Lia.
-From AV Require Import Lib.Sx Model.Close Proof.CloseP Proof.CloseInvP Proof.CloseThmP Proof.CloseRefP.
+From AV Require Import Lib.Sx Model.Close Proof.CloseP Proof.CloseInvP Proof.CloseThmP Proof.CloseQuiesceP
+  Proof.CloseRefP.
 Import ListNotations.
 
 (* ---- termination.  `helps c e` = e is a step of the close() coroutine or of the task / library
@@ -90,6 +91,31 @@ Proof.
   - destruct (step true c0 e); [apply IH; exact H0|discriminate].
 Qed.
 Print Assumptions C19_stays_closed.
+
+(* ---- what close() does not wait for: the DTLS pump it has cancelled, a DTLS handshake or an ICE
+   start() that was in flight.  On a transport whose ICE side is shut down (C19_nothing_running:
+   every transport of the connection once close() has returned) no step of anybody increases
+   `tresid`, every step of those parties strictly decreases it, whatever is still live has an
+   enabled step, and tresid = 0 means nothing is live: they wind down within tresid <= 5 steps
+   ("the loop has run the already-cancelled tasks once"). *)
+Theorem C19_transports_wind_down : forall c t tp,
+  nth_error (c_tps c) t = Some tp -> iquiet tp ->
+  (forall e c', step true c e = Some c' ->
+     exists tp', nth_error (c_tps c') t = Some tp' /\ iquiet tp' /\ tresid tp' <= tresid tp /\
+                 (tp_event t e = true -> tresid tp' < tresid tp)) /\
+  (tp_live tp -> exists e c' tp', step true c e = Some c' /\ nth_error (c_tps c') t = Some tp' /\
+                                  tresid tp' < tresid tp) /\
+  (tresid tp = 0 -> ~ tp_live tp /\ d_state tp <> DNew) /\ tresid tp <= 5.
+Proof.
+  intros c t tp Ht Hq. split; [|split; [|split]].
+  - intros e c' HS. destruct (tresid_step _ _ _ _ _ HS Ht Hq) as (tp' & H1 & H2 & H3).
+    exists tp'. split; [exact H1|]. split; [exact H2|]. split; [exact H3|]. intros He.
+    destruct (tresid_own_step _ _ _ _ _ HS Ht Hq He) as (tp2 & H4 & H5). congruence.
+  - apply tresid_enabled; auto.
+  - apply tresid_zero.
+  - unfold tresid. destruct (d_state tp), (d_pump tp), (i_starting tp); cbn; lia.
+Qed.
+Print Assumptions C19_transports_wind_down.
 
 (* ---- the code before the repairs violates the property (witnesses evaluated in the model; each is
    replayed on the implementation by the harness when run against the unrepaired tree). *)
